@@ -799,6 +799,7 @@ class Interp:
         fr = self.cur()
         fr.loop_ctl = getattr(fr, "loop_ctl", [])
         fr.loop_ctl.append([])
+        base_len = len(st.pc)
         alive = self.exec_block(body, st)
         ctl = fr.loop_ctl.pop()
         if ctl:
@@ -810,8 +811,10 @@ class Interp:
                 if acc is None:
                     acc = x
                 else:
-                    acc = self.join_states(x, acc, T("loopctl", k, fresh_id()))
+                    extra = x.pc[base_len:]
+                    acc = self.join_states(x, acc, T("loopctl", k, self._conj(extra)) if extra else T("loopctl", k))
             st.become(acc)
+            st.pc = st.pc[:base_len]
             if "break" in kinds and not alive and len(kinds) == 1:
                 return "break"
             return True
@@ -863,14 +866,18 @@ class Interp:
             fr.loop_ctl = getattr(fr, "loop_ctl", [])
             fr.loop_ctl.append([])
             nret = len(fr.returns)
+            base_len = len(state.pc)
             alive = self.exec_block(s.body, state)
             ctl = fr.loop_ctl.pop()
             for k, x in ctl:
+                extra = x.pc[base_len:]
+                cond = T("loopctl", k, self._conj(extra)) if extra else T("loopctl", k, lid)
                 if alive:
-                    state.become(self.join_states(x, state, T("loopctl", k, lid)))
+                    state.become(self.join_states(x, state, cond))
                 else:
                     state.become(x)
                     alive = True
+                state.pc = state.pc[:base_len]
             return alive, c, fr.returns[nret:]
 
         pre = st.copy()
